@@ -155,6 +155,13 @@ def compute_rayleigh_cross_section(wngrid,n,n_air = 2.6867805e25,king=1.0):
 
     return sigma
 
+def _missing(val):
+    """True for the placeholder (None or a scalar NaN) contributed by a rank
+    with too few samples. Compares by value: after an MPI gather the
+    placeholder is an unpickled copy, never the ``np.nan`` object itself."""
+    return val is None or (np.isscalar(val) and val != val)
+
+
 def test_nan(val):
     if hasattr(val,'__len__'):
         try:
@@ -288,7 +295,7 @@ class OnlineVariance(object):
                 continue
 
             #print('avg',avg)
-            if avg is not None and not avg is np.nan:
+            if not _missing(avg):
                 if average is None:
                     average = avg*cnt
                 else:
@@ -308,7 +315,7 @@ class OnlineVariance(object):
                     squares = cnt*(average - avg)**2
                 else:
                     squares += cnt*(average - avg)**2
-            if var is not np.nan:
+            if not _missing(var):
                 squares += cnt*var 
         # squares = counts*variances
         # squares += counts*(average - averages)**2
